@@ -1,0 +1,196 @@
+//go:build verif
+
+package keeper
+
+// Contracts for the deductive checker in /verif (comment-only; compiled only with -tags verif).
+// Property C12 "UC DAO ledger: shares always add up to the pooled funds".
+// Sorts Addr / BalMap / AddrSet, module_addr and sum_bal are declared in /verif/specs/lib/60_bank_addr.spec.
+
+/*@
+alias DaoParams github.com/haqq-network/haqq/x/ucdao/types.Params
+world dao_params DaoParams        // module parameters (ParamsKey)
+world dao_bal BalMap              // per-holder balances (BalancesPrefix | addr | denom); absent = 0
+world dao_total Coins             // recorded total per denom (TotalBalanceKey | denom); absent = 0
+world dao_holders AddrSet         // holders index (HoldersPrefix | addr)
+world bank_bal BalMap             // x/bank balances per account (contract of the BankKeeper calls: lib spec 60_bank_addr)
+
+// The ledger invariant of the property: shares add up to the recorded total, which equals the coins held by the
+// module account, and the holder index lists exactly the accounts with a non-zero balance.
+specfunc DaoInv(bal BalMap, total Coins, holders AddrSet, bank BalMap) bool =
+    sum_bal(bal) == total && bank[module_addr("ucdao")] == total && (forall a Addr :: holders[a] == !ciszero(bal[a]))
+
+// ------------------------------------------------------------------ leaf store accessors (assumed)
+func (BaseKeeper).GetParams
+    trusted
+    ensures result == dao_params
+func (BaseKeeper).IsModuleEnabled
+    inline
+func IsLiquidToken
+    trusted
+    pure
+func (BaseKeeper).GetBalance
+    trusted
+    ensures result.Denom == denom && result.Amount == dao_bal[addr][denom]
+func (BaseKeeper).setBalance
+    trusted
+    modifies dao_bal
+    ensures result == nil ==> balance.Amount >= 0
+            && dao_bal == bset(old(dao_bal), addr, cset(old(dao_bal)[addr], balance.Denom, balance.Amount))
+    ensures result != nil ==> dao_bal == old(dao_bal)
+func (BaseKeeper).GetAccountBalances
+    trusted
+    ensures result == dao_bal[addr] && cnonneg(result)
+func (BaseKeeper).GetTotalBalanceOf
+    trusted
+    ensures result.Denom == denom && result.Amount == dao_total[denom]
+func (BaseKeeper).setTotalBalanceOfCoin
+    trusted
+    modifies dao_total
+    ensures dao_total == cset(old(dao_total), coin.Denom, coin.Amount)
+func (BaseKeeper).setHoldersIndex
+    trusted
+    modifies dao_holders
+    ensures dao_holders == aset(old(dao_holders), addr, !ciszero(dao_bal[addr]))
+
+// ------------------------------------------------------------------ verified
+// crediting an account adds exactly amt to that account and touches nobody else (also when it fails half-way)
+func (BaseKeeper).addCoinsToAccount
+    modifies dao_bal
+    ensures credited: result == nil ==> dao_bal == bset(old(dao_bal), addr, cadd(old(dao_bal)[addr], amt))
+    ensures others: forall a Addr :: a != addr ==> dao_bal[a] == old(dao_bal)[a]
+    loop 1 invariant idx: 0 <= #i && #i <= coins_len(amt)
+    loop 1 invariant sum: dao_bal == bset(old(dao_bal), addr, cadd(old(dao_bal)[addr], coins_prefix(amt, #i)))
+    loop 1 back use CoinsPrefixAbsent(amt, #i - 1, coins_at(amt, #i - 1).Denom)
+
+// Fund: the depositor is credited with exactly what was deposited, the recorded total and the module account grow
+// by the same amount, nobody else is touched, and the ledger invariant is preserved.
+func (BaseKeeper).Fund
+    modifies dao_bal, dao_total, dao_holders, bank_bal
+    let M = module_addr("ucdao")
+    let debited = bset(old(bank_bal), sender, csub(old(bank_bal)[sender], amount))
+    ensures credited: result == nil ==> dao_bal == bset(old(dao_bal), sender, cadd(old(dao_bal)[sender], amount))
+    ensures total: result == nil ==> dao_total == cadd(old(dao_total), amount)
+    ensures paid: result == nil ==> clte(amount, old(bank_bal)[sender]) && bank_bal == bset(debited, M, cadd(debited[M], amount))
+    ensures pool: result == nil && sender != M ==> bank_bal[M] == cadd(old(bank_bal)[M], amount)
+            && bank_bal[sender] == csub(old(bank_bal)[sender], amount)
+    ensures holders: result == nil ==> dao_holders == aset(old(dao_holders), sender, !ciszero(dao_bal[sender]))
+    ensures inv: result == nil && sender != M && old(DaoInv(dao_bal, dao_total, dao_holders, bank_bal))
+            ==> DaoInv(dao_bal, dao_total, dao_holders, bank_bal)
+    ensures disabled: !dao_params.EnableDao ==> result != nil && dao_bal == old(dao_bal) && dao_total == old(dao_total)
+            && dao_holders == old(dao_holders) && bank_bal == old(bank_bal)
+    loop 1 invariant idx: 0 <= #i && #i <= coins_len(amount)
+    loop 1 invariant bal: dao_bal == bset(old(dao_bal), sender, cadd(old(dao_bal)[sender], coins_prefix(amount, #i)))
+    loop 1 invariant tot: dao_total == cadd(old(dao_total), coins_prefix(amount, #i))
+    loop 1 back use CoinsPrefixAbsent(amount, #i - 1, coins_at(amount, #i - 1).Denom)
+
+// TransferOwnership moves exactly `amount` from the owner's balance to the recipient, touches nobody else and
+// neither the recorded total nor the module account; it fails if the owner has less than `amount`.
+// For owner == newOwner the balance must be unchanged (no share may be created or destroyed).
+func (BaseKeeper).TransferOwnership
+    rawslice leftovers
+    modifies dao_bal, dao_holders
+    let bal0 = old(dao_bal)[owner]
+    let credited = bset(old(dao_bal), newOwner, cadd(old(dao_bal)[newOwner], amount))
+    ensures insufficient: !clte(amount, old(dao_bal)[owner]) ==> result.1 != nil
+    ensures moved: result.1 == nil && owner != newOwner
+            ==> dao_bal == bset(credited, owner, csub(old(dao_bal)[owner], amount))
+    ensures self: result.1 == nil && owner == newOwner ==> dao_bal == old(dao_bal)
+    ensures others: forall a Addr :: a != owner && a != newOwner ==> dao_bal[a] == old(dao_bal)[a]
+    ensures returned: result.1 == nil ==> result.0 == amount
+    ensures holders: result.1 == nil ==> dao_holders == aset(aset(old(dao_holders), newOwner, !ciszero(dao_bal[newOwner])), owner, !ciszero(dao_bal[owner]))
+    ensures inv: result.1 == nil && owner != newOwner && old(DaoInv(dao_bal, dao_total, dao_holders, bank_bal))
+            ==> DaoInv(dao_bal, dao_total, dao_holders, bank_bal)
+    ensures inv_self: result.1 == nil && owner == newOwner && old(DaoInv(dao_bal, dao_total, dao_holders, bank_bal))
+            ==> DaoInv(dao_bal, dao_total, dao_holders, bank_bal)
+    ensures disabled: !dao_params.EnableDao ==> result.1 != nil && dao_bal == old(dao_bal) && dao_holders == old(dao_holders)
+    // loop 1: leftovers[k] is what remains of the k-th requested denomination
+    loop 1 invariant idx: 0 <= #i && #i <= coins_len(amount) && len(leftovers) == #i
+    loop 1 invariant left: forall k int :: 0 <= k && k < #i ==> leftovers[k].Denom == coins_at(amount, k).Denom
+            && leftovers[k].Amount == balances[coins_at(amount, k).Denom] - coins_at(amount, k).Amount
+    loop 1 invariant covered: clte(coins_prefix(amount, #i), balances)
+    // loop 2: the first #i requested denominations of the owner have been overwritten with the leftovers
+    loop 2 invariant idx: 0 <= #i && #i <= len(leftovers)
+    //         (the owner is debited before the recipient is credited)
+    loop 2 invariant bal: dao_bal == bset(old(dao_bal), owner,
+                coverwrite(coins_prefix(amount, #i), csub(bal0, coins_prefix(amount, #i)), old(dao_bal)[owner]))
+
+// ------------------------------------------------------------------ message handlers
+// msgServer embeds the Keeper interface; its only implementation is BaseKeeper (var _ Keeper = (*BaseKeeper)(nil)),
+// so calls through the interface use the contracts of the BaseKeeper methods verified above.
+func (Keeper).Fund
+    sameas (BaseKeeper).Fund
+func (Keeper).TransferOwnership
+    sameas (BaseKeeper).TransferOwnership
+func (Keeper).GetAccountBalances
+    sameas (BaseKeeper).GetAccountBalances
+
+// MsgFund: the depositor named in the message is credited with exactly msg.Amount
+func (msgServer).Fund
+    requires msg_nonnil: msg != nil      // the message router always passes a decoded message
+    modifies dao_bal, dao_total, dao_holders, bank_bal
+    let M = module_addr("ucdao")
+    let sender = addr_of_bech32(old(msg.Depositor))
+    let amount = old(msg.Amount)
+    ensures response: (result.1 == nil) == (result.0 != nil)
+    ensures credited: result.1 == nil ==> dao_bal == bset(old(dao_bal), sender, cadd(old(dao_bal)[sender], amount))
+    ensures total: result.1 == nil ==> dao_total == cadd(old(dao_total), amount)
+    ensures pool: result.1 == nil && sender != M ==> bank_bal[M] == cadd(old(bank_bal)[M], amount)
+            && bank_bal[sender] == csub(old(bank_bal)[sender], amount)
+    ensures bank_others: result.1 == nil ==> forall a Addr :: a != M && a != sender ==> bank_bal[a] == old(bank_bal)[a]
+    ensures inv: result.1 == nil && sender != M && old(DaoInv(dao_bal, dao_total, dao_holders, bank_bal))
+            ==> DaoInv(dao_bal, dao_total, dao_holders, bank_bal)
+
+// MsgTransferOwnership: the signer's whole balance moves to the recipient
+func (msgServer).TransferOwnership
+    requires msg_nonnil: msg != nil      // the message router always passes a decoded message
+    modifies dao_bal, dao_holders
+    let owner = addr_of_bech32(old(msg.Owner))
+    let newOwner = addr_of_bech32(old(msg.NewOwner))
+    let bal0 = old(dao_bal)[owner]
+    ensures response: (result.1 == nil) == (result.0 != nil)
+    ensures moved: result.1 == nil && owner != newOwner
+            ==> dao_bal == bset(bset(old(dao_bal), newOwner, cadd(old(dao_bal)[newOwner], bal0)), owner, coins_zero())
+    ensures self: result.1 == nil && owner == newOwner ==> dao_bal == old(dao_bal)
+    ensures others: forall a Addr :: a != owner && a != newOwner ==> dao_bal[a] == old(dao_bal)[a]
+    ensures inv: result.1 == nil && old(DaoInv(dao_bal, dao_total, dao_holders, bank_bal))
+            ==> DaoInv(dao_bal, dao_total, dao_holders, bank_bal)
+
+// MsgTransferOwnershipWithAmount: exactly msg.Amount moves
+func (msgServer).TransferOwnershipWithAmount
+    requires msg_nonnil: msg != nil      // the message router always passes a decoded message
+    modifies dao_bal, dao_holders
+    let owner = addr_of_bech32(old(msg.Owner))
+    let newOwner = addr_of_bech32(old(msg.NewOwner))
+    let amount = old(msg.Amount)
+    ensures response: (result.1 == nil) == (result.0 != nil)
+    ensures insufficient: !clte(amount, old(dao_bal)[owner]) ==> result.1 != nil
+    ensures moved: result.1 == nil && owner != newOwner
+            ==> dao_bal == bset(bset(old(dao_bal), newOwner, cadd(old(dao_bal)[newOwner], amount)), owner, csub(old(dao_bal)[owner], amount))
+    ensures self: result.1 == nil && owner == newOwner ==> dao_bal == old(dao_bal)
+    ensures others: forall a Addr :: a != owner && a != newOwner ==> dao_bal[a] == old(dao_bal)[a]
+    ensures inv: result.1 == nil && old(DaoInv(dao_bal, dao_total, dao_holders, bank_bal))
+            ==> DaoInv(dao_bal, dao_total, dao_holders, bank_bal)
+
+// MsgTransferOwnershipWithRatio: of every denomination the signer holds, trunc(balance * ratio) moves
+ghost func RatioCoins(c Coins, r int, i int) Coins
+    def ite(i <= 0, coins_zero(), cset(RatioCoins(c, r, i-1), coins_at(c, i-1).Denom,
+            RatioCoins(c, r, i-1)[coins_at(c, i-1).Denom] + dec_trunc(dec_mul(dec_of(coins_at(c, i-1).Amount), r))))
+func (msgServer).TransferOwnershipWithRatio
+    requires msg_nonnil: msg != nil      // the message router always passes a decoded message
+    modifies dao_bal, dao_holders
+    let owner = addr_of_bech32(old(msg.Owner))
+    let newOwner = addr_of_bech32(old(msg.NewOwner))
+    let bal0 = old(dao_bal)[owner]
+    let amount = RatioCoins(bal0, old(msg.Ratio), coins_len(bal0))
+    ensures response: (result.1 == nil) == (result.0 != nil)
+    ensures reported: result.1 == nil ==> result.0.Coins == amount
+    ensures covered: result.1 == nil ==> clte(amount, bal0)
+    ensures moved: result.1 == nil && owner != newOwner
+            ==> dao_bal == bset(bset(old(dao_bal), newOwner, cadd(old(dao_bal)[newOwner], amount)), owner, csub(old(dao_bal)[owner], amount))
+    ensures self: result.1 == nil && owner == newOwner ==> dao_bal == old(dao_bal)
+    ensures others: forall a Addr :: a != owner && a != newOwner ==> dao_bal[a] == old(dao_bal)[a]
+    ensures inv: result.1 == nil && old(DaoInv(dao_bal, dao_total, dao_holders, bank_bal))
+            ==> DaoInv(dao_bal, dao_total, dao_holders, bank_bal)
+    loop 1 invariant idx: 0 <= #i && #i <= coins_len(balances)
+    loop 1 invariant coins: coins == RatioCoins(balances, msg.Ratio, #i)
+@*/
